@@ -98,6 +98,22 @@ def check(P: Project, R: Report) -> None:
             for v_, (call_, lits_) in sorted(carried.items()):
                 R.ob("R8", f"{f.qual}: `{v_}` is established in the iteration that uses it", False, f"{f.module.rel}:{call_.lineno}",
                      f"`{ast.unparse(call_)[:60]}` reads `{v_}`, which this iteration assigns only on some paths (not under {lits_}): for a server that takes the other path the value left by an earlier server is used — e.g. a later server without a timeout is handshaken under an earlier server's shorter one and abandoned")
+            # … and a value another per-server loop left behind is the last server's, whichever server this iteration is about
+            other_loops = [l_ for l_ in walk_local(f.node) if isinstance(l_, (ast.For, ast.AsyncFor)) and l_ is not loop and not any(loop is x for x in walk_local(l_)) and not any(l_ is x for x in walk_local(loop))]
+            left_behind = {}
+            for l_ in other_loops:
+                for b in l_.body:
+                    for n_ in ast.walk(b):
+                        if isinstance(n_, ast.Name) and isinstance(n_.ctx, ast.Store):
+                            left_behind.setdefault(n_.id, l_)
+            outside = {n_.id for n_ in walk_local(f.node) if isinstance(n_, ast.Name) and isinstance(n_.ctx, ast.Store) and not any(any(n_ is x for x in ast.walk(b)) for l_ in other_loops + [loop] for b in l_.body)}
+            for call_ in calls_:
+                for a_ in list(call_.args) + [k.value for k in call_.keywords]:
+                    for n_ in ast.walk(a_):
+                        if isinstance(n_, ast.Name) and n_.id in left_behind and n_.id not in stored and n_.id not in outside and n_.id not in f.params():
+                            carried.setdefault(n_.id, (call_, ["<never assigned in this loop>"]))
+                            R.ob("R8", f"{f.qual}: `{n_.id}` is established in the iteration that uses it", False, f"{f.module.rel}:{call_.lineno}",
+                                 f"`{ast.unparse(call_)[:60]}` reads `{n_.id}`, which only the loop at line {left_behind[n_.id].lineno} assigns: here it still holds what that loop's last iteration left — every server this loop handles is launched with the last server's parameters")
             if not carried:
                 R.ob("R8", f"{f.qual}: the per-server loop at line {loop.lineno} hands on only values of its own iteration", True, f"{f.module.rel}:{loop.lineno}", "", sample=f"R8 {f.qual}: loop over {ast.unparse(loop.iter)[:30]} — nothing carried over")
     R.need(n_l >= 1, "anchor: no loop over the configured servers that connects or initialises")
@@ -110,6 +126,10 @@ def check(P: Project, R: Report) -> None:
         seen_entry.add(c["module"])
         R.call_sites += 1
         t = (c["arg_types"] or [None])[0]
+        inl_ = getattr(P, "inliner", None)
+        read_at_site = {x.split(" into ")[0].split(":")[-1].split(".")[-1] for x in (inl_.inlined if inl_ is not None else [])}
+        if t in ("Any", None) and c["function"] in read_at_site:
+            continue  # an untyped local helper read at its call sites: the dataflow obligation below sees the argument there
         R.ob("R1", f"{c['module']}:{c['function']} {c['name']}(…) argument type", t == STDIO_PARAMS, f"{c['file']}:{c['line']}",
              f"argument type is `{t}` (must be StdioParameters: load_config returns a (params, timeout) tuple)", sample=f"R1 {c['module']}:{c['function']}: {c['name']}(<{t}>)")
     R.need(seen_entry == set(ENTRY_MODULES), f"anchor: connector calls found only in {sorted(seen_entry)}")
@@ -133,14 +153,19 @@ def check(P: Project, R: Report) -> None:
         if nm in CONNECTORS:
             a = call.args[0] if call.args else None
             t = subst_text(a, st) if a is not None else "?"
-            return "connect:" + t + "=" + an.defs.get(t, ("?", None))[0]
+            return "connect:arg=" + an.defs.get(t, ("?", None))[0].replace("\u00b7", "~")  # (the definition text, not the term: events naming a dead term are dropped when states are reduced)
         if nm == "send_initialize":
             return "init:" + ",".join(an.origin(subst_text(a, st)) for a in call.args[:2])
         return None
 
     for f in entries:
         R.fn(f.fq)
-        an, out = run_paths(f.node, event_of=ev, fallible=True)
+        try:
+            an, out = run_paths(f.node, event_of=ev, fallible=True)
+        except AnalysisError:
+            # too many distinct path conditions (several per-server loops with helpers read in): facts about terms no longer
+            # in use are dropped and each loop iteration starts from what the loop head knows
+            an, out = run_paths(f.node, event_of=ev, fallible=True, gc_dead_terms=True, forget_at_loop_back=True)
         R.paths += len(out.ret) + len(out.normal) + len(out.exc)
         ends = [st for st, _n in out.ret] + list(out.normal)
         okpaths = [st for st in ends if any(e.startswith("init:") for e in st.events)]
